@@ -8,8 +8,8 @@ from harness import worldcorr as WC
 from props import _worldfam as F
 
 PID = 'C13'
-GENERATORS = ['consts']
-LEAN_TARGETS = ['EosProofs.Props.C13', 'EosProofs.Props.C13World']
+GENERATORS = ['consts', 'fleet_table']
+LEAN_TARGETS = ['EosProofs.Props.C13', 'EosProofs.Props.C13World', 'EosProofs.Lemmas.FleetTable']
 DRIVERS = ['drv_world']
 TRUSTED = F.WORLD_TRUSTED
 RULE = ('(1) exhaustive: all 24 orders of {put target ship on its fit, add projecting module, activate it, set target} and '
@@ -24,13 +24,19 @@ RULE = ('(1) exhaustive: all 24 orders of {put target ship on its fit, add proje
 ASSUMPTIONS = ['K1 class (known finding): a target / member ship loaded, unloaded or replaced while targeted / boosted']
 CLAUSES = {
     'a running projectable effect modifies exactly its current target (item filter) / the items aboard a targeted ship (location filters)': 'spec lemmas affectsProjected_item_iff, affectsProjected_location_iff, projectionTargets_eq + correspondence',
-    'a running fleet boost reaches exactly the ships of the boosting fit and of fits in the same fleet': 'spec lemma mem_boostTargets + correspondence',
+    'a running fleet boost reaches exactly the ships of the boosting fit and of fits in the same fleet': (
+        'spec lemma mem_boostTargets + correspondence; boostTargets, buffModifiers and the fleet-boost branch of gather are '
+        'additionally tied by the regenerated complete table EosGen.FleetTable (real code run on every world of 1-3 fits x '
+        'fleet A / B / none x ship / no ship, booster on fit 1 started last (outside K1), one template per filter kind, every '
+        'item): fleet_table_matches_spec, fleet_table_buff_modifier, fleet_table_gather_matches, fleet_table_complete'),
     're-targeting / stopping / joining / leaving update immediately': 'the spec is a function of the current configuration; impl tied by histories; machine-level: C01',
     'outcome independent of set-up order': 'proved at message level: C13World.setup_order_irrelevant_world (two legal message histories ending in settled states of the same configuration observe the same values, both the from-scratch table), retarget_immediate_world; exhaustive order enumeration on impl; K1 orders are a known finding',
 }
 LEVEL_TEXT = ('Lean: exact characterisation of the affected set of projected modifiers and fleet boosts in the spec, and '
               'order-independence at machine level; tie: exhaustive enumeration of set-up/tear-down orders on the real '
-              'code against from-scratch values plus random multi-fit histories against the spec.')
+              'code against from-scratch values plus random multi-fit histories against the spec; boostTargets and the '
+              'fleet-boost branch of gather are tied by a complete table regenerated on every run (258 fleet worlds, 17 004 '
+              'cases) and checked equal to the spec by kernel evaluation.')
 LEVEL_NOTE = 'K1 orders are excluded by hypothesis and listed as known finding; same trusted base as C01.'
 TECHNIQUE = 'Lean 4 spec characterisation + machine-level order independence + exhaustive order enumeration'
 
@@ -315,7 +321,40 @@ def correspondence(ctx):
     F.histories(ctx, rep, list(n), n, 'corr', on_history=on_history, promote_l1=True)
 
 
+def _fleet_check(states, snap, aid, rows):
+    """First (template, item) of one world on which the real code left the Python re-statement of boostTargets +
+    affectsProjected: (case, message) or None."""
+    from gen import affects_table as AT
+    from harness import affects_ref as AR
+    for m, scr, inc in rows:
+        for x in snap[1]:
+            want = AR.boost_expected(snap, aid, m, x)
+            for how, got in (('built from scratch', x[0] in scr), ('booster activated after all items were read', x[0] in inc)):
+                if got != want:
+                    case = {'fleet_table': [list(st) for st in states], 'template_modifier': list(m), 'item': list(x),
+                            'observation': how, 'boosted_by_code': got, 'boosted_by_spec': want,
+                            'oracle': 'python re-statement of Eos.World.boostTargets / affectsProjected'}
+                    return case, ('designed fleet world %r (fleet, ship per fit; booster on fit 1; %s): item %r (kind %s, '
+                                  'fit %d) is %s by the template with filter=%d arg=%r, the specification says it is %s'
+                                  % (states, how, x[0], AT.KINDS[x[1]], x[3], 'boosted' if got else 'NOT boosted', m[0],
+                                     m[2], 'boosted' if want else 'not boosted'))
+    return None
+
+
+def _fleet_table(rep):
+    """The regenerated fleet-boost table against the Python re-statement (harness/affects_ref.py).  The proof
+    obligation is the Lean theorem over the same table; this names the case."""
+    from gen import fleet_table as FT
+    for (states, snap, eff, aid, tpls, rows) in (FT.LAST or FT.tables()):
+        rep.case(sig=('fleet-table', states), kind='fleet-table-world')
+        rep.dist['fleet_table_items'] += len(snap[1]) * len(rows)
+        bad = _fleet_check(states, snap, aid, rows)
+        if bad:
+            rep.violate(bad[1], bad[0])
+
+
 def oracle(ctx):
+    _fleet_table(ctx.report)
     _projection_orders(ctx.report)
     _detached_target_orders(ctx.report)
     _nondefault_effect_orders(ctx.report)
@@ -328,4 +367,16 @@ def search(ctx, broken):
 
 
 def replay(path):
+    import json
+    p = C.VERIF / path if not str(path).startswith('/') else path
+    v = json.load(open(p)).get('violation') or {}
+    case = v.get('case') if isinstance(v, dict) else None
+    if isinstance(case, dict) and 'fleet_table' in case:
+        from gen import fleet_table as FT
+        print(json.dumps(v, indent=1)[:3000])
+        states = tuple(tuple(st) for st in case['fleet_table'])
+        snap, eff, aid, tpls, scr, inc = FT.observe(states)
+        bad = _fleet_check(states, snap, aid, [(m, scr[m[3]], inc[m[3]]) for _, m in tpls])
+        print('re-executed:', bad[1] if bad else 'the real code agrees with the specification on this world')
+        return 1 if bad else 0
     return F.generic_replay(PID, path)
